@@ -564,6 +564,102 @@ def part_cols(ctx):
     return len(cases)
 
 
+# ------------------------- 3c. several bases with different count dtypes, dtypes left to be inferred
+def dtype_run(tmpdir, tag, case):
+    import cooler
+    import h5py
+    out = tmpdir / f"{tag}.mcool"
+    paths = []
+    for bi, base in enumerate(case["bases"]):
+        p = tmpdir / f"{tag}_b{bi}.cool"
+        G.make_cooler(p, fixed_blocks(case["sizes"], base["res"]), base["pixels"], True, count_dtype=base["dtype"])
+        paths.append(str(p))
+
+    def go():
+        if out.exists():
+            os.remove(out)
+        cooler.zoomify_cooler(paths, str(out), list(case["resolutions"]), chunksize=case["chunksize"])
+        levels = {}
+        with h5py.File(str(out), "r") as f:
+            for r in f["resolutions"].keys():
+                g = f["resolutions"][r]["pixels"]
+                dt = g["count"].dtype
+                conv = float if dt.kind == "f" else int
+                levels[int(r)] = (str(np.dtype(dt).name),
+                                  [[int(a), int(b), conv(v)] for a, b, v in zip(g["bin1_id"][:], g["bin2_id"][:], g["count"][:])])
+        return levels
+    st, res = G.guarded(go, 120)
+    for p in paths + [str(out)]:
+        if os.path.exists(p):
+            os.remove(p)
+    return st, res
+
+
+def dtype_oracle(case, st, res):
+    """every level has the value dtype AND the values of the direct coarsening of (one of) its own base(s);
+    a base level is a copy.  Float values are multiples of 1/4, so every sum is exact in binary64."""
+    if st != "ok":
+        return {"what": "zoomify of bases with different count dtypes failed", "status": st, "type": res}
+    bases = case["bases"]
+    want = sorted(set(case["resolutions"]) | {b["res"] for b in bases})
+    if sorted(res) != want:
+        return {"what": "levels", "got": sorted(res), "expected": want}
+    for r in want:
+        dt, px = res[r]
+        tried = []
+        for b in bases:
+            if r % b["res"]:
+                continue
+            blocks = fixed_blocks(case["sizes"], b["res"])
+            k = r // b["res"]
+            exp = [list(p) for p in b["pixels"]] if k == 1 else G.oracle_pixels(blocks, b["pixels"], k)
+            conv = float if np.dtype(b["dtype"]).kind == "f" else int
+            exp = [[p[0], p[1], conv(p[2])] for p in exp]
+            tried.append({"base": b["res"], "dtype": b["dtype"], "dtype_ok": dt == b["dtype"], "values_ok": px == exp})
+            if dt == b["dtype"] and px == exp and all(type(x[2]) is type(y[2]) for x, y in zip(px, exp)):
+                break
+        else:
+            return {"what": f"level {r} (stored dtype {dt}) has neither the dtype+values of the direct coarsening of any base it is a multiple of",
+                    "tried": tried, "pixels": px[:12]}
+    return None
+
+
+def part_dtypes(ctx):
+    rng = ctx.rng
+    tmpdir = ctx.tmp / "dtypes"
+    tmpdir.mkdir(exist_ok=True)
+    sizes = [120, 45]
+
+    def mk(res, dtype, pattern):
+        n = sum(len(b) for b in fixed_blocks(sizes, res))
+        px = G.random_pixels(rng, n, True, pattern, maxcount=40)
+        if np.dtype(dtype).kind == "f":
+            px = [(i, j, v / 4.0 + 0.25) for (i, j, v) in px]       # fractional, exactly representable
+        return {"res": res, "dtype": dtype, "pixels": [list(p) for p in px]}
+    specs = [
+        ([mk(10, "int32", "dense"), mk(15, "float64", "dense")], [20, 30]),        # first derived level int32, then a float64 one
+        ([mk(15, "float64", "band"), mk(10, "int32", "dense")], [30, 20]),         # same, bases and targets in the other order
+        ([mk(10, "float64", "dense"), mk(15, "int32", "dense")], [20, 45]),        # first derived level float64, then an int32 one
+        ([mk(10, "int64", "sparse"), mk(15, "int32", "dense")], [30, 20, 60]),     # 60 <- 30 <- base 15 (int32), 20 <- base 10 (int64)
+        ([mk(20, "float64", "dense"), mk(30, "int32", "dense")], [40, 60, 120]),
+        ([mk(15, "int64", "dense"), mk(10, "float64", "sparse")], [45, 40]),
+    ]
+    if ctx.tier == "thorough":
+        for _ in range(8):
+            d1, d2 = rng.sample(["int32", "int64", "float64"], 2)
+            r1, r2 = rng.choice([(10, 15), (15, 10), (20, 30), (10, 25)])
+            specs.append(([mk(r1, d1, "dense"), mk(r2, d2, "dense")], rng.sample([2 * r1, 2 * r2, 3 * r1, 3 * r2], 3)))
+    cases = [{"fn": "zoomify_cooler(bases with different count dtypes)", "sizes": sizes, "bases": bases, "resolutions": res,
+              "chunksize": rng.choice([1, 7, 1000])} for bases, res in specs]
+    for i, case in enumerate(cases):
+        ctx.case(case, nontrivial=True, kind="zoomify:dtypes:" + "+".join(b["dtype"] for b in case["bases"]))
+        st, res = dtype_run(tmpdir, f"d{i}", case)
+        bad = dtype_oracle(case, st, res)
+        if bad:
+            ctx.fail(case, bad, None)
+    return len(cases)
+
+
 # -------------------------------------------------------------------------- 4. CLI
 def ref_expand(spec, curres, maxres):
     """independent reading of the documented -r grammar (help text of `cooler zoomify`)"""
@@ -708,6 +804,7 @@ def run(ctx):
     scopes["preferred_sequence_cases"] = part_prefseq(ctx)
     scopes["zoomify_runs"] = part_zoom(ctx)
     scopes["zoomify_column_runs"] = part_cols(ctx)
+    scopes["zoomify_dtype_runs"] = part_dtypes(ctx)
     scopes["cli_runs"] = part_cli(ctx)
     ctx.exhaustive = True
     ctx.extra["scopes"] = scopes
@@ -721,6 +818,9 @@ def replay(ctx, case):
         from cooler._reduce import preferred_sequence
         got = [int(x) for x in preferred_sequence(case["start"], case["stop"], case["style"])]
         return got == ref_pref(case["start"], case["stop"], case["style"] == "binary")
+    if fn.startswith("zoomify_cooler(bases with different"):
+        st, res = dtype_run(ctx.tmp, "replay", case)
+        return dtype_oracle(case, st, res) is None
     if fn.startswith("zoomify(columns"):
         st, res = cols_run(ctx.tmp, "replay", case)
         return cols_oracle(case, st, res) is None
